@@ -442,6 +442,37 @@ fn oracle(line: &str, out: &str) -> Result<bool, String> {
             }
             Ok(it <= 200)
         }
+        ["K", ops] => {
+            // the token triggers (t1) only while cancelled and not disabled: re-derive from the trace
+            let mut cancelled = false;
+            let mut disabled = false;
+            let mut it = out.split(']');
+            for c in ops.chars() {
+                let seg = it.next().unwrap_or("");
+                match c {
+                    'c' => cancelled = true,
+                    'e' => disabled = true,
+                    'd' => disabled = false,
+                    'r' => {
+                        cancelled = false;
+                        disabled = false;
+                    }
+                    't' => {
+                        let fired = seg.starts_with("t1");
+                        if fired != (cancelled && !disabled) {
+                            return Err(format!("should_trigger = {} with cancelled={} disabled={}", fired, cancelled, disabled));
+                        }
+                    }
+                    'q' => {
+                        if seg.starts_with("q1") != cancelled {
+                            return Err("is_cancelled wrong".into());
+                        }
+                    }
+                    _ => {}
+                }
+            }
+            Ok(ops.contains('c') && ops.contains('t'))
+        }
         ["M", a, b] => {
             let r: u32 = out.parse().unwrap();
             let (pg, s) = t::split_id(r);
